@@ -37,10 +37,14 @@ structure PepClause where
 
 abbrev PepSpec := List PepClause
 
+/-- An exhausted (zero padded) release segment against the rest of the other one. -/
+def cmpReleaseNil : List Nat → Ordering
+  | [] => .eq
+  | b :: bs => (compare 0 b).then (cmpReleaseNil bs)
+
 /-- Release segments compare with zero padding. -/
 def cmpRelease : List Nat → List Nat → Ordering
-  | [], [] => .eq
-  | [], b :: bs => (compare 0 b).then (cmpRelease [] bs)
+  | [], bs => cmpReleaseNil bs
   | a :: as, [] => (compare a 0).then (cmpRelease as [])
   | a :: as, b :: bs => (compare a b).then (cmpRelease as bs)
 
